@@ -15,7 +15,12 @@ by their fields and precision settings), the id obtained by serializing,
 dropping "id" and parsing again, or the exception class."""
 import datetime as dt
 import json
+import os
 import sys
+import time
+
+if os.environ.get("TZ"):
+    time.tzset()
 
 import stix2
 import stix2.utils
@@ -175,6 +180,9 @@ def call(case):
         else:
             d = {"type": ty, "spec_version": "2.1"}
             d.update(dict(props))
+            if case["mode"] == "parse_text":
+                # the same data as JSON text (another public argument form of parse)
+                d = json.dumps(d, ensure_ascii=False)
             obj = stix2.parse(d, allow_custom=allow_custom, version="2.1")
     except Exception as e:  # noqa: BLE001
         return {"exc": type(e).__name__}
